@@ -48,7 +48,7 @@ var BaseAtoms = []string{
 	`{"minLength":1}`, `{"minLength":2}`, `{"maxLength":1}`, `{"maxLength":2}`,
 	`{"pattern":"^a+$"}`, `{"pattern":"é"}`,
 	`{"type":"string","format":"date"}`, `{"type":"string","format":"email"}`, `{"type":"string","format":"uuid"}`,
-	`{"type":"string","format":"no-such-format"}`,
+	`{"type":"string","format":"no-such-format"}`, `{"type":"string","format":"x-even"}`,
 	`{"minItems":1}`, `{"minItems":2}`, `{"maxItems":1}`, `{"maxItems":2}`, `{"uniqueItems":true}`,
 	`{"minProperties":1}`, `{"maxProperties":1}`,
 	`{"required":["a"]}`, `{"required":["a","b"]}`,
